@@ -222,6 +222,12 @@ class Rot:
     def __mul__(self, o):
         if isinstance(o, Rot) and self.q is not None and o.q is not None:
             return Rot(*qmul(self.q, o.q))
+        if isinstance(o, Rot):
+            # angle mode on either side: compose the rotation matrices and map the product back to an angle
+            # (the double-cover sign of the product is not tracked: rotation only)
+            A, B = self.rotation_matrix, o.rotation_matrix
+            M = [[A[i][0] * B[0][j] + A[i][1] * B[1][j] + A[i][2] * B[2][j] for j in range(3)] for i in range(3)]
+            return Rot(matrix=M)
         return NotImplemented
 
     def __neg__(self):
@@ -261,6 +267,16 @@ class Rot:
     def slerp(cls, q0, q1, amount=0.5):
         """Shortest-arc interpolation.  Supported for yaw-only pairs (angle mode or exact yaw rotations
         taken to angle mode through atan2 of their rational matrix)."""
+        if q0.q is not None and q1.q is not None and any(v != 0 for v in (q0.q[1], q0.q[2], q1.q[1], q1.q[2])):
+            # general 3-D rotations: exact only where the result is one of the end points
+            a, b = q0.q, q1.q
+            dot = sum(x * y for x, y in zip(a, b))
+            same = dot * dot == sum(x * x for x in a) * sum(y * y for y in b)  # parallel quaternions: one rotation
+            if same:
+                return Rot(*b)
+            if not symx.is_sym(amount) and amount in (0, 1):
+                return Rot(*b) if amount == 1 else Rot(*[(-v if dot < 0 else v) for v in a])
+            raise NotImplementedError("slerp between two distinct 3-D rotations is outside the exact rotation set")
         t0, s0 = _as_angle(q0)
         t1, s1 = _as_angle(q1)
         if symx.is_sym(amount):
